@@ -769,8 +769,20 @@ Proof.
       intros t0 f0 E0; cbn in E0; inversion E0; subst; exact Hf'.
   - destruct hd; try exact Hi.
     destruct (call_write_body c input cap) as [[[c' u] o]|e|p]; cbn [fst]; try exact Hi.
-    destruct track; cbn [fst]; (eapply (HInv_noflow s h); [exact Hi|reflexivity|cbn; discriminate]).
+    + destruct track; cbn [fst]; (eapply (HInv_noflow s h); [exact Hi|reflexivity|cbn; discriminate]).
+    + apply (HInv_call s h); exact Hi.
 Qed.
+
+(** The arms of [step] for the single call past the request: the object stays a call or is gone. *)
+Ltac call_arms s h Hi :=
+  unfold do_call_into_receive;
+  repeat match goal with
+  | |- context [match into_receive ?c with _ => _ end] => destruct (into_receive c)
+  | |- context [match c_reader ?c with _ => _ end] => destruct (c_reader c) as [[| | |]|]
+  | |- context [match call_try_response ?c ?b with _ => _ end] => destruct (call_try_response c b) as [[? ?]|?|?]
+  | |- context [match call_read ?c ?b ?cap with _ => _ end] => destruct (call_read c b cap) as [[[? ?] ?]|?|?]
+  end; cbn [fst];
+  first [exact Hi | apply (HInv_call s h); exact Hi | apply (HInv_none s h); exact Hi].
 
 Theorem hstep_inv s h o : SInv s -> HInv s h -> HInv (fst (step s o)) (hstep s h o).
 Proof.
@@ -807,7 +819,7 @@ Proof.
     + exfalso. cbn [ObjInv] in Hobj.
       pose proof (despite_total f Hobj) as Ht. rewrite E in Ht. exact Ht.
   - (* OProceed *)
-    destruct (s_obj s) as [|t f|hd c] eqn:Ho; [exact Hi| |exact Hi].
+    destruct (s_obj s) as [|t f|hd c] eqn:Ho; [exact Hi| |destruct hd; call_arms s h Hi].
     cbn [ObjInv] in Hobj. apply do_proceed_hinv; assumption.
   - (* OPremature *)
     destruct (s_obj s) as [|t f|hd c] eqn:Ho; [exact Hi| |exact Hi]. apply do_premature_hinv; exact Hi.
@@ -815,8 +827,8 @@ Proof.
     destruct (s_obj s) as [|t f|hd c] eqn:Ho; [| destruct t | destruct hd]; cbn [fst]; try exact Hi.
     + eapply hupd_inv; [exact Hi|exact Ho|]. intros [a o] Ha. split; [eapply send_request_write_sameF; exact Ha|].
       intros; discriminate.
-    + destruct (call_write_nobody c cap) as [[c' out]|e|p]; cbn [fst]; try exact Hi.
-      apply (HInv_call s h); exact Hi.
+    + destruct (call_write_nobody c cap) as [[c' out]|e|p]; cbn [fst]; try exact Hi;
+        (apply (HInv_call s h); exact Hi).
   - destruct (s_obj s) as [|t f|hd c] eqn:Ho; [| destruct t | destruct hd]; apply do_write_body_hinv; exact Hi.
   - destruct (s_obj s) as [|t f|hd c] eqn:Ho; [| destruct t | destruct hd]; apply do_write_body_hinv; exact Hi.
   - destruct (s_obj s) as [|t f|hd c] eqn:Ho; [| destruct t | destruct hd]; apply do_write_body_hinv; exact Hi.
@@ -837,16 +849,19 @@ Proof.
     destruct (s_obj s) as [|t f|hd c] eqn:Ho; [| destruct t | destruct hd]; cbn [fst]; try exact Hi.
     cbn [ObjInv] in Hobj. apply (do_try_response_hinv s h f (window s) true); assumption.
   - destruct (s_obj s) as [|t f|hd c] eqn:Ho; [| destruct t | destruct hd]; cbn [fst]; try exact Hi.
-    cbn [ObjInv] in Hobj. apply (do_try_response_hinv s h f w false); assumption.
+    + cbn [ObjInv] in Hobj. apply (do_try_response_hinv s h f w false); assumption.
+    + call_arms s h Hi.
   - (* ORead *)
     destruct (s_obj s) as [|t f|hd c] eqn:Ho; [| destruct t | destruct hd]; cbn [fst]; try exact Hi.
     apply do_read_hinv; assumption.
   - destruct (s_obj s) as [|t f|hd c] eqn:Ho; [| destruct t | destruct hd]; cbn [fst]; try exact Hi.
-    apply do_read_hinv; assumption.
+    + apply do_read_hinv; assumption.
+    + call_arms s h Hi.
   - (* OStop *)
     destruct (s_obj s) as [|t f|hd c] eqn:Ho; [| destruct t | destruct hd]; cbn [fst]; try exact Hi.
-    eapply hupd_inv; [exact Hi|exact Ho|]. intros a Ha. split; [eapply recv_body_stop_sameF; exact Ha|].
-    intros; discriminate.
+    + eapply hupd_inv; [exact Hi|exact Ho|]. intros a Ha. split; [eapply recv_body_stop_sameF; exact Ha|].
+      intros; discriminate.
+    + call_arms s h Hi.
   - (* OAsNewFlow *)
     destruct (s_obj s) as [|t f|hd c] eqn:Ho; [| destruct t | destruct hd]; cbn [fst]; try exact Hi.
     destruct (as_new_flow f p) as [[f' nxt]|e|pn] eqn:E; cbn [fst]; try exact Hi.
